@@ -1012,10 +1012,10 @@ Qed.
 
 Theorem fut_st_eqb_spec a b : st_eqb a b = true <-> a = b.
 Proof.
-  destruct a as [t1 x1 c1 k1 g1], b as [t2 x2 c2 k2 g2]. unfold st_eqb. simpl.
-  rewrite !andl_true_iff, bool_eqb_spec, Z.eqb_eq, (list_eqb_spec _ thread_eqb_spec),
-    (list_eqb_spec _ cstate_eqb_spec), (list_eqb_spec _ bool_eqb_spec). split.
-  - intros (Hc & Hx & Ht & Hk & Hg). subst. reflexivity.
+  destruct a as [t1 x1 c1 f1 w1 k1 g1], b as [t2 x2 c2 f2 w2 k2 g2]. unfold st_eqb. simpl.
+  rewrite !andl_true_iff, !bool_eqb_spec, Z.eqb_eq, (list_eqb_spec _ thread_eqb_spec),
+    (list_eqb_spec _ cstate_eqb_spec), (list_eqb_spec _ bool_eqb_spec), optnat_eqb_spec. split.
+  - intros (Hc & Hx & Ht & Hk & Hg & Hf & Hw). subst. reflexivity.
   - intros H. inversion H. repeat split; reflexivity.
 Qed.
 
@@ -1046,9 +1046,9 @@ Theorem fut_tau_labels_complete s l :
   vis l = None -> qstep s l <> None -> In l (tau_labels s).
 Proof.
   intros Hv Hs. unfold tau_labels.
-  destruct l as [t|g|c| |t v|t|t|t|t v|t c|t v e|t|t|t|t|t|t|c];
+  destruct l as [t|g|c| |t v|t|t|t|t v|t c|t v e|t|t|t|t|t|t|t|t|t|c];
     simpl in Hv; try discriminate Hv; clear Hv.
-  1-6: (assert (Ht : t < length (ths s))
+  1-9: (assert (Ht : t < length (ths s))
           by (apply nth_error_Some; intros E; apply Hs; simpl; unfold getth; rewrite E; reflexivity));
        apply in_or_app; left; apply in_flat_map; exists t;
        (split; [apply in_seq; split; [apply Nat.le_0_l | exact Ht] | in_list]).
@@ -1394,6 +1394,53 @@ Proof. vm_compute. split; reflexivity. Qed.
 
 Example ex_no_run : forall ls s, run qstep (init ex_cfg 1 0) ls = Some s -> fut_trace ls <> ex_bad.
 Proof. apply fut_reject_genuine; [exact (proj2 ex_rejects) | exact (proj1 ex_rejects)]. Qed.
+
+(* two concurrent Fills: exactly one returns, the other panics, every Wait returns the winner's value *)
+Definition ex_cfg2 : list (option nat * kind) := [(None, KFill 1); (None, KFill 2); (None, KWait); (None, KWait)]%Z.
+Definition ex_hist2 : list lab :=
+  [LSpawn 0; LSpawn 1; LSpawn 2; LCallWait 2; LCallFill 0 1; LCallFill 1 2; LPanicFill 0; LRetWait 2 2; LRetFill 1;
+   LSpawn 3; LCallWait 3; LRetWait 3 2; LQuiesce]%Z.
+
+Example ex_accepts2 : accepts_history ex_cfg2 0 0 ex_hist2 = true /\ fut_converged ex_cfg2 0 0 ex_hist2 = true.
+Proof. vm_compute. split; reflexivity. Qed.
+
+(* the behaviour of the code before the repair (the second Fill overwrites the value before it panics):
+   rejected, genuinely *)
+Definition ex_bad2 : list lab :=
+  [LSpawn 0; LSpawn 1; LSpawn 2; LSpawn 3; LCallFill 0 1; LRetFill 0; LCallWait 2; LRetWait 2 1;
+   LCallFill 1 2; LPanicFill 1; LCallWait 3; LRetWait 3 2]%Z.
+
+Example ex_rejects2 : accepts_history ex_cfg2 0 0 ex_bad2 = false /\ fut_converged ex_cfg2 0 0 ex_bad2 = true.
+Proof. vm_compute. split; reflexivity. Qed.
+
+Example ex_no_run2 : forall ls s, run qstep (init ex_cfg2 0 0) ls = Some s -> fut_trace ls <> ex_bad2.
+Proof. apply fut_reject_genuine; [exact (proj2 ex_rejects2) | exact (proj1 ex_rejects2)]. Qed.
+
+(* both Fills return / both panic: rejected, genuinely *)
+Definition ex_bad2b : list lab := [LSpawn 0; LSpawn 1; LCallFill 0 1; LCallFill 1 2; LRetFill 0; LRetFill 1]%Z.
+Definition ex_bad2c : list lab := [LSpawn 0; LSpawn 1; LCallFill 0 1; LCallFill 1 2; LPanicFill 0; LPanicFill 1]%Z.
+
+Example ex_rejects2bc :
+  (accepts_history ex_cfg2 0 0 ex_bad2b = false /\ fut_converged ex_cfg2 0 0 ex_bad2b = true) /\
+  (accepts_history ex_cfg2 0 0 ex_bad2c = false /\ fut_converged ex_cfg2 0 0 ex_bad2c = true).
+Proof. vm_compute. repeat split; reflexivity. Qed.
+
+(* a WaitContext called after Fill has returned, with a cancelled context: the value is accepted,
+   the context error (possible before the repair) is rejected, genuinely *)
+Definition ex_cfg3 : list (option nat * kind) := [(None, KFill 7); (None, KWaitCtx 0)]%Z.
+Definition ex_hist3 : list lab :=
+  [LSpawn 0; LCallFill 0 7; LRetFill 0; LCancel 0; LQuiesce; LSpawn 1; LCallWaitCtx 1 0; LRetWaitCtx 1 7 false; LQuiesce]%Z.
+Definition ex_bad3 : list lab :=
+  [LSpawn 0; LCallFill 0 7; LRetFill 0; LCancel 0; LQuiesce; LSpawn 1; LCallWaitCtx 1 0; LRetWaitCtx 1 0 true]%Z.
+
+Example ex_accepts3 : accepts_history ex_cfg3 1 0 ex_hist3 = true /\ fut_converged ex_cfg3 1 0 ex_hist3 = true.
+Proof. vm_compute. split; reflexivity. Qed.
+
+Example ex_rejects3 : accepts_history ex_cfg3 1 0 ex_bad3 = false /\ fut_converged ex_cfg3 1 0 ex_bad3 = true.
+Proof. vm_compute. split; reflexivity. Qed.
+
+Example ex_no_run3 : forall ls s, run qstep (init ex_cfg3 1 0) ls = Some s -> fut_trace ls <> ex_bad3.
+Proof. apply fut_reject_genuine; [exact (proj2 ex_rejects3) | exact (proj1 ex_rejects3)]. Qed.
 End FutEx.
 
 Module LazyEx.
@@ -1451,4 +1498,6 @@ Print Assumptions LazyM.lazy_reject_genuine.
 Print Assumptions LazyM.lazy_accepts_iff.
 Print Assumptions WatchEx.ex_no_run.
 Print Assumptions FutEx.ex_no_run.
+Print Assumptions FutEx.ex_no_run2.
+Print Assumptions FutEx.ex_no_run3.
 Print Assumptions LazyEx.ex_no_run.
